@@ -323,8 +323,12 @@ func (c *Ctx) run() {
 		}
 	}
 	fr.paramSet = map[string]bool{}
+	fr.paramObjs = map[string]types.Object{}
 	for _, p := range fn.Params {
 		fr.paramSet[p.Name()] = true
+		if p.Object() != nil {
+			fr.paramObjs[p.Name()] = p.Object()
+		}
 	}
 	fr.env = c.contractEnv(ct, fn.Signature, fn, args, nil)
 	// receiver by its source name even when the signature lost it
